@@ -13,6 +13,7 @@ import LbfgsbVerif.Proofs.C11
 import LbfgsbVerif.Props.C03
 import LbfgsbVerif.Proofs.Dcsrch
 import LbfgsbVerif.Proofs.LsRange
+import LbfgsbVerif.Model.Kernels
 import Mathlib.Algebra.Order.Field.Rat
 
 namespace Lbfgsb.C11
@@ -170,6 +171,22 @@ theorem dcsrch_conv_is_wolfe (st : DC α) (stp f g : α) (task : Task) (ht : tas
     · exfalso
       unfold advance finish at h
       cases h
+
+/-- the complete executable model (`concreteOracles`, Model/Kernels.lean — the one `drv solve` runs
+natively against the package) uses the DCSRCH model as its stepper … -/
+theorem concreteOracles_stepper (lb ub : Vec α) (e : α) : ConcreteStepper (concreteOracles lb ub e) :=
+  ⟨fun _ _ _ _ _ _ => rfl, fun _ _ _ _ _ => rfl⟩
+
+/-- **C11 (7')** … so in the complete model every evaluation of every line search is at the clipped
+trial point of a step in `[0, max_allowed_steplength]`, with no hypothesis on the kernels or the stepper. -/
+theorem concrete_ls_steps_in_range {ε : Type} (u : User α ε) (c : Cfg α) (e : α)
+    (x0 : Vec α) (f0 : α) (g0 d : Vec α) (nit : Nat) (sf sf' : SF α) (maxIter : Nat) (olog olog' : List (OReq α))
+    (stp? : Option α) (hc : Coh u.toSFUser sf)
+    (h : lineSearch u (concreteOracles c.lb c.ub e) c x0 f0 g0 d nit sf maxIter olog = .ok (sf', stp?, olog')) :
+    ∃ new, sf'.log = sf.log ++ new ∧ ∀ call ∈ new, ∃ stp,
+      (¬ stp < 0 ∧ ¬ maxAllowedStep x0 d c.lb c.ub c.maxStep nit < stp) ∧
+      EvalAt u.toSFUser sf.mode (trial x0 d c.lb c.ub stp) call :=
+  ls_steps_in_range u _ (concreteOracles_stepper c.lb c.ub e) c x0 f0 g0 d nit sf sf' maxIter olog olog' stp? hc h
 
 end stepper
 
